@@ -12,9 +12,14 @@ from . import driver
 VERIF = driver.VERIF
 
 TRUSTED_BASE = [
-    "pyvc symbolic semantics of the Python subset (DESIGN.md 2.2; primitive models differential-tested against CPython by `./check --selftest`)",
-    "z3 4.x/5.x and cvc5 soundness",
+    "pyvc symbolic semantics of the Python subset (DESIGN.md 2.2, 8.1): an interpreter written for this task, not a verified tool; its symbolic "
+    "models of Python primitives are compared with CPython on random inputs by `./check SELFTEST` (run by setup.sh)",
+    "z3 (in-process) and cvc5 soundness; integers are mathematical (Python ints are unbounded, so this is exact); floats are reals (A8)",
     "A1 static method resolution / no monkey-patching of verified classes",
+    "sidecar models of external code (ipv8_rust_tunnels, asyncio): assumptions A3/A4/A5/A7, sampled against the real extension by "
+    "pyvc.selftest_models (run by setup.sh) - tested, not proved",
+    "stubbed callees (listed under assumptions as 'stub: ...') are assumed to satisfy the contract written next to them",
+    "termination is not verified (paths are explored to their end; loops are either executed for concrete bounds or cut by invariants)",
 ]
 
 
@@ -148,6 +153,17 @@ def finish(prop, tier, seed, results, wall, write_evidence=True, verbose=False, 
                     known_hits.append((kf[0], ob))
                 else:
                     violations.append((u, ob))
+    # on_effect guards that never met an event in ANY unit of their contract (informational: a guard on an event that must never
+    # happen is legitimately silent; a misspelt event name is not)
+    gh: dict = {}
+    for u in results:
+        for pat, n in (u.get("guard_hits") or {}).items():
+            key = (u.get("contract"), pat)
+            gh[key] = gh.get(key, 0) + n
+    silent_guards = sorted(f"{c}: {pat}" for (c, pat), n in gh.items() if n == 0)
+    if verbose and silent_guards:
+        for g in silent_guards:
+            print(f"    NOTE guard never evaluated (no such event on any path): {g}")
     code = 0
     for kf, ob in known_hits:
         print(f"KNOWN-FINDING: property={prop} {kf['what']} [{ob['name']}]")
@@ -195,6 +211,7 @@ def finish(prop, tier, seed, results, wall, write_evidence=True, verbose=False, 
                 "units": units_summary,
                 "bounded_checks": bounded,
                 "known_findings_reported": [k["what"] for k, _ in known_hits],
+                "guards_never_evaluated": silent_guards,
                 "undecided": [n for n, _ in undecided],
             },
             "assumptions": sorted(assumptions),
